@@ -1547,6 +1547,7 @@ where
 {
     // Collect items between delimiters, excluding commas
     let mut items = Vec::new();
+    let mut current: Option<DocBuilder<'a, D, A>> = None;
     let mut open_doc = allocator.nil();
     let mut close_doc = allocator.nil();
     let mut found_open = false;
@@ -1567,6 +1568,9 @@ where
                 }
                 TokenKind::Comma => {
                     // Skip commas - we'll add them with proper breaking
+                    if let Some(item) = current.take() {
+                        items.push(item);
+                    }
                     continue;
                 }
                 _ => {}
@@ -1574,8 +1578,17 @@ where
         }
 
         if found_open {
-            items.push(cst_to_doc(child, ctx, allocator));
+            // Everything between two commas is ONE item (a parameter is a name followed by an
+            // optional type annotation and an optional default value: sibling nodes of the list).
+            let doc = cst_to_doc(child, ctx, allocator);
+            current = Some(match current.take() {
+                Some(item) => item.append(doc),
+                None => doc,
+            });
         }
+    }
+    if let Some(item) = current.take() {
+        items.push(item);
     }
 
     if items.is_empty() {
